@@ -35,6 +35,64 @@ pub open spec fn monotone(a: Seq<u8>, b: Seq<u8>) -> bool {
     a.len() == b.len() && forall|p: int| bit_set(a, p) ==> bit_set(b, p)
 }
 
+pub proof fn lemma_or_bit(b: u8, k: u8)
+    requires k < 8
+    ensures (b | (1u8 << k)) & (1u8 << k) != 0,
+        forall|j: u8| j < 8 && (b & (1u8 << j)) != 0 ==> ((b | (1u8 << k)) & (1u8 << j)) != 0,
+{
+    assert((b | (1u8 << k)) & (1u8 << k) != 0) by (bit_vector) requires k < 8;
+    assert forall|j: u8| j < 8 && (b & (1u8 << j)) != 0 implies ((b | (1u8 << k)) & (1u8 << j)) != 0 by {
+        assert((b & (1u8 << j)) != 0 ==> ((b | (1u8 << k)) & (1u8 << j)) != 0) by (bit_vector);
+    }
+}
+
+pub proof fn lemma_monotone_trans(a: Seq<u8>, b: Seq<u8>, c: Seq<u8>)
+    requires monotone(a, b), monotone(b, c)
+    ensures monotone(a, c)
+{}
+
+pub proof fn lemma_monotone_keeps_probes(a: Seq<u8>, b: Seq<u8>, h: ChangeHash, np: u32)
+    requires monotone(a, b), all_probes_set(a, h, np)
+    ensures all_probes_set(b, h, np)
+{
+    assert forall|k: int| 0 <= k < nprobes(np) implies bit_set(b, #[trigger] px(h, 8 * (b.len() as int), k as nat)) by {
+        assert(bit_set(a, px(h, 8 * (a.len() as int), k as nat)));
+    }
+}
+
+/// C23: after any sequence of add_hash steps (each satisfying add_hash's contract),
+/// every added hash is reported present by contains_hash's contract.
+pub proof fn lemma_no_false_negative(states: Seq<Seq<u8>>, hs: Seq<ChangeHash>, np: u32)
+    requires
+        states.len() == hs.len() + 1,
+        forall|i: int| 0 <= i < hs.len() ==> monotone(#[trigger] states[i], states[i + 1]) && all_probes_set(states[i + 1], hs[i], np),
+    ensures
+        forall|i: int| 0 <= i < hs.len() ==> all_probes_set(states[states.len() - 1], #[trigger] hs[i], np),
+    decreases hs.len(),
+{
+    if hs.len() > 0 {
+        let n = hs.len() as int;
+        lemma_no_false_negative(states.subrange(0, n), hs.subrange(0, n - 1), np);
+        assert forall|i: int| 0 <= i < hs.len() implies all_probes_set(states[states.len() - 1], #[trigger] hs[i], np) by {
+            assert(states.len() - 1 == n);
+            if i == n - 1 {
+                assert(monotone(states[n - 1], states[n - 1 + 1]) && all_probes_set(states[n - 1 + 1], hs[n - 1], np));
+            }
+            if i < n - 1 {
+                let st2 = states.subrange(0, n);
+                let hs2 = hs.subrange(0, n - 1);
+                assert(st2.len() - 1 == n - 1);
+                assert(all_probes_set(st2[st2.len() - 1], hs2[i], np));
+                assert(states.subrange(0, n)[n - 1] == states[n - 1]);
+                assert(hs.subrange(0, n - 1)[i] == hs[i]);
+                assert(all_probes_set(states[n - 1], hs[i], np));
+                assert(monotone(states[n - 1], states[n]));
+                lemma_monotone_keeps_probes(states[n - 1], states[n], hs[i], np);
+            }
+        }
+    }
+}
+
 impl BloomFilter {
     pub open spec fn modulo(&self) -> int { 8 * self.bits.len() }
 
@@ -87,6 +145,21 @@ impl BloomFilter {
         if let Some(byte) = self.bits.get_mut(probe >> 3) {
             *byte |= 1 << (probe & 7);
         }
+        proof {
+            let k = (probe % 8) as u8;
+            let idx = probe as int / 8;
+            let ob = old(self).bits@[idx];
+            lemma_or_bit(ob, k);
+            assert((1u8 << (probe & 7)) == (1u8 << k)) by (bit_vector) requires k == (probe % 8) as u8, (probe & 7) == probe % 8;
+            assert(self.bits@[idx] == ob | (1u8 << k));
+            assert forall|j: int| 0 <= j < self.bits.len() && j != idx implies self.bits@[j] == old(self).bits@[j] by {}
+            assert forall|p: int| bit_set(old(self).bits@, p) implies bit_set(self.bits@, p) by {
+                if p / 8 == idx {
+                    let j = (p % 8) as u8;
+                    assert(j < 8);
+                }
+            }
+        }
     }
 
     #[verifier::external_body]
@@ -123,7 +196,13 @@ impl BloomFilter {
         if self.num_entries == 0 {
             false
         } else {
-            for probe in self.get_probes(hash) {
+            for probe in it: self.get_probes(hash)
+                invariant
+                    0 < self.bits.len() < 0x1000_0000,
+                    it.seq().len() == nprobes(self.num_probes),
+                    forall|k: int| 0 <= k < it.seq().len() ==> #[trigger] it.seq()[k] as int == px(*hash, 8 * (self.bits.len() as int), k as nat) && it.seq()[k] < 8 * self.bits.len(),
+                    forall|k: int| 0 <= k < it.index@ ==> bit_set(self.bits@, #[trigger] px(*hash, 8 * (self.bits.len() as int), k as nat)),
+            {
                 if let Some(bit) = self.get_bit(probe as usize) {
                     if bit == 0 {
                         return false;
